@@ -253,11 +253,11 @@ def run(ctx):
             if rng.random() < 0.3 and trees:
                 trees.append(dict(root=trees[0]['root'], istart=trees[0]['istart']))     # shared operators / repeated tree
             cases.append(dict(kind='trees', L=L, idoid=idoid, trees=trees))
-        for _ in range(ctx.pick(220, 5000)):
-            L = rng.choice([1, 2, 3, 3, 4, 4, 5] if ctx.quick else [1, 2, 3, 3, 4, 5, 6])
-            cases.append(dict(kind='autop', L=L, a=rand_autop(rng, L, ctx.pick(5, 8) if L <= 4 else 4)))
+        for _ in range(ctx.pick(220, 3000)):
+            L = rng.choice([1, 2, 3, 3, 4, 4, 5] if ctx.quick else [1, 2, 3, 3, 4, 4, 5, 6])
+            cases.append(dict(kind='autop', L=L, a=rand_autop(rng, L, ctx.pick(5, 8) if L <= 4 else (4 if L == 5 else 3))))
         for _ in range(ctx.pick(24, 400)):
-            L = rng.choice([4, 5, 5, 6] if ctx.quick else [4, 5, 6, 7])
+            L = rng.choice([4, 5, 5, 6] if ctx.quick else [4, 5, 5, 6, 6])
             cases.append(dict(kind='autop', L=L, a=late_autop(rng, L)))
         for _ in range(ctx.pick(60, 1000)):
             cases.append(dict(kind='dense_chain', seed=rng.randrange(1 << 30)))
@@ -279,7 +279,7 @@ def run(ctx):
     ctx.notes['raise_events'] = sum(1 for tr in traces if any(r['ev'] == 'raise' for r in tr))
     for tr in traces[1:2000:330]:
         ctx.sample([{k: v for k, v in r.items() if k not in ('g', 'm', 'opmap')} for r in tr][:3])
-    bad = validate_chunks(ctx, 'TraceUnfold', 'tu', traces, chunk=ctx.pick(50, 400))
+    bad = validate_chunks(ctx, 'TraceUnfold', 'tu', traces, chunk=ctx.pick(50, 150), timeout=3600)
     for idx, why in sorted(bad.items())[:40]:
         c = cases[idx]
         clause = why[0][2] if why and len(why[0]) > 2 else 'rejected'
